@@ -1,12 +1,62 @@
 (* C13 - read-only use never writes to the storage.
-   The region classification is Spec/Regions.v (extracted and evaluated on every device write of the
-   implementation).  Theorems so far: the frame of image writes (nothing outside a write's range changes). *)
-From Coq Require Import NArith List.
-From FatVerif Require Import Model.Base Spec.Image Proofs.ImageProofs.
+   Proved per layer: reading and seeking leave the FAT and every data cluster untouched (Model/FileM.v), the
+   directory reader is a pure function of the slots (Model/Lfn.v read_dir takes no store), and unmounting a volume on
+   which nothing structural happened does not write the status byte (Model/Flags.v).  Every device write of
+   read-only sessions on the implementation is counted by tools/props/c13.py. *)
+From Coq Require Import NArith ZArith List Lia.
+From FatVerif Require Import Model.Base Model.Table Model.FileM Model.Flags Spec.Image Spec.ByteFile
+  Proofs.ImageProofs Proofs.TableProofs Proofs.FileProofs Proofs.CrossProofs.
 Open Scope N_scope.
 
 Theorem C13_write_frame : forall bs im off o,
   (o < off \/ off + N.of_nat (length bs) <= o) -> img_get (img_write im off bs) o = img_get im o.
 Proof. exact img_write_outside. Qed.
 
+(* mount followed by unmount/drop with no structural change: the status byte is not written, for any byte value *)
+Theorem C13_unmount_clean_no_write : forall b, status_writes (set_dirty_flag (st_mount b) false) = 0.
+Proof. exact unmount_clean_no_write. Qed.
+
+Section C13.
+Variable T : Type.
+Variable get : T -> N -> res fatv.
+Variable set : T -> N -> fatv -> res T.
+Variable val : T -> N -> fatv.
+Variable okc : N -> Prop.
+Variable okv : fatv -> Prop.
+Variable inv : T -> Prop.
+Hypothesis get_val : forall t c, inv t -> okc c -> get t c = Ok (val t c).
+Hypothesis set_ok : forall t c v, inv t -> okc c -> okv v ->
+  exists t', set t c v = Ok t' /\ inv t' /\ val t' c = v /\ forall c', c' <> c -> okc c' -> val t' c' = val t c'.
+Hypothesis okv_free : okv Free.
+Hypothesis okv_eoc : okv Eoc.
+Variable cs total : N.
+Hypothesis Hcs : 0 < cs.
+Hypothesis Hokc : forall x, 2 <= x < total + 2 -> okc x.
+Hypothesis Hokd : forall n, 2 <= n < total + 2 -> okv (Data n).
+
+(* File::read and File::seek return the world (FAT store, free-space latch, cluster data) exactly as it was *)
+Theorem C13_read_leaves_world : forall w h sz l n,
+  WorldInv T val inv cs total w -> FileInv T val cs total w h sz l ->
+  exists h' bs, file_read T get cs w h n = Ok (w, h', bs).
+Proof.
+  intros w h sz l n Hw Hf.
+  destruct (file_read_spec T get set val okc okv inv get_val set_ok cs total Hcs Hokc Hokd w h sz l n Hw Hf) as (h' & bs & E & _).
+  exists h', bs. exact E.
+Qed.
+
+Theorem C13_seek_leaves_world : forall w h sz l pos,
+  WorldInv T val inv cs total w -> FileInv T val cs total w h sz l ->
+  (0 <= seek_target sz (h_off h) pos)%Z ->
+  exists h' p, file_seek T get cs w h pos = Ok (w, h', p).
+Proof.
+  intros w h sz l pos Hw Hf Hpos.
+  pose proof (file_seek_spec T get set val okc okv inv get_val set_ok cs total Hcs Hokc Hokd w h sz l pos Hw Hf) as H.
+  cbv zeta in H. destruct (seek_target sz (h_off h) pos <? 0)%Z eqn:E; [apply Z.ltb_lt in E; lia|].
+  destruct H as (h' & E' & _). eexists _, _. exact E'.
+Qed.
+End C13.
+
 Print Assumptions C13_write_frame.
+Print Assumptions C13_unmount_clean_no_write.
+Print Assumptions C13_read_leaves_world.
+Print Assumptions C13_seek_leaves_world.
